@@ -302,7 +302,7 @@ func checkRefsFor(p *Program, r *Report) {
 		nFil++
 		fk := funcKey(f)
 		cfg := &simCfg{Event: map[string]bool{"method:(iterator).Next": true, "(*blockIter).Next": true, "method:(Table).SeekRef": true, "(*Iterator).NextRef": true, "(*indexedTableRefIter).nextBlock": true},
-			Pure: map[string]bool{"bytes.Compare": true, "bytes.Equal": true}, NoInlineDefault: true}
+			Pure: map[string]bool{"bytes.Compare": true, "bytes.Equal": true}, Opaque: map[string]bool{"fmt.Errorf": true, "newRecord": true}}
 		c, _ := runSim(p, f, cfg, nil)
 		cmpAtoms := func(s simSample) (val, tgt *Term) {
 			// the comparisons of the current iteration (facts about earlier
